@@ -82,8 +82,24 @@ theorem task_perm (st : V2 M O) (had : st.allowDup = true) :
       cases left with
       | nil => simp [V2.task, hpc, V2.all, Pc.subs, Pc.rest]
       | cons m left =>
+        -- the subscriber is removed: todo ++ (gone ++ [s] ++ X)  ~  s :: todo ++ (gone ++ X)
+        have hperm : ∀ X : List (Nat × Nat × Nat × (M → Option O)),
+            (idents todo ++ (idents st.gone ++ (s.ident :: X))).Perm
+              (s.ident :: (idents todo ++ (idents st.gone ++ X))) := by
+          intro X
+          rw [← List.append_assoc, ← List.append_assoc]
+          exact List.perm_middle
         cases hc : s.conv m with
-        | none => simp [V2.task, hpc, hc, V2.all, Pc.subs, Pc.rest, Sub.ident]
+        | none =>
+          cases hd : st.dead.contains s.actor with
+          | false =>
+            have hd' : s.actor ∉ st.dead := by simpa using hd
+            simp [V2.task, hpc, hc, hd', V2.all, Pc.subs, Pc.rest, Sub.ident]
+          | true =>
+            simp only [V2.task, hpc, hc, hd, ↓reduceIte, V2.all, Pc.subs, Pc.rest, idents_append,
+              idents_cons, idents_nil, List.append_assoc]
+            apply List.Perm.append_left
+            simpa using hperm _
         | some o =>
           cases hd : st.dead.contains s.actor with
           | false =>
@@ -163,7 +179,7 @@ theorem served_not_gone {st : V2 M O} (h : AInv st) (c : Call M) (hc : st.task.2
         have hck : c.key = s.key := by
           simp only [V2.task, hpc] at hc
           split at hc
-          · simp at hc; rw [← hc]
+          · split at hc <;> (simp at hc; rw [← hc])
           · split at hc <;> (simp at hc; rw [← hc])
         rw [hck]
         simp only [V2.all, hpc, Pc.subs, Pc.rest, List.map_append, List.map_cons] at hnd
@@ -203,7 +219,9 @@ theorem gone_mono_step (st : V2 M O) (op : Op2 M O) : ∀ g ∈ st.gone, g ∈ (
     · exact hn _ _ _
     · exact hg
     · split
-      · exact hg
+      · split
+        · exact List.mem_append_left _ hg
+        · exact hg
       · split
         · exact List.mem_append_left _ hg
         · exact hg
@@ -263,8 +281,13 @@ theorem batch_progress (st : V2 M O) (srv todo : List (Sub M O)) (seg left : Lis
     | cons m left =>
       cases hc : s.conv m with
       | none =>
-        simp only [V2.task, hpc, hc, Pc.measure]
-        exact Prod.Lex.right _ (Prod.Lex.right _ (by simp))
+        cases hd : st.dead.contains s.actor with
+        | true =>
+          simp only [V2.task, hpc, hc, hd, ↓reduceIte, Pc.measure]
+          exact Prod.Lex.right _ (Prod.Lex.left _ _ (by simp))
+        | false =>
+          simp only [V2.task, hpc, hc, hd, Bool.false_eq_true, ↓reduceIte, Pc.measure]
+          exact Prod.Lex.right _ (Prod.Lex.right _ (by simp))
       | some o =>
         cases hd : st.dead.contains s.actor with
         | true =>
